@@ -4,5 +4,6 @@ CONSTRAINT Emit
 INVARIANT Explained
 INVARIANT GrammarCovers
 INVARIANT LayoutStable
+INVARIANT InnerGrammarCovers
 INVARIANT OutcomeOK
 CHECK_DEADLOCK FALSE
